@@ -23,9 +23,12 @@ META = {
 ADAPTER_MODES = {
     'cga': [0, 1, 2], 'ega': [0, 1, 2, 7, 8, 9], 'ega64': [0, 9], 'ega_mono': [0, 10], 'vga': [0, 1, 2, 7, 8, 9], 'mda': [0], 'hercules': [0, 3],
     'tandy': [0, 1, 2, 3, 4, 5, 6], 'pcjr': [0, 1, 2, 3, 4, 5, 6], 'olivetti': [0, 1, 2, 3],
+    'tandy_syntax': [0, 1, 5, 6], 'pcjr_syntax': [0, 4],
 }
 SESSION_KW = {
     'ega64': dict(video='ega', video_memory=65536), 'ega_mono': dict(video='ega', monitor='mono'),
+    # the Tandy 1000 / PCjr presets: the dialect changes the BSAVE file format (Tandy repeats the header behind the data)
+    'tandy_syntax': dict(video='tandy', syntax='tandy'), 'pcjr_syntax': dict(video='pcjr', syntax='pcjr'),
 }
 SEGS = [0xB800, 0xA000, 0xB000]
 
@@ -46,6 +49,7 @@ class Driver(object):
         self.s = Sess(peek_values={}, **kw)
         self.s.autocls = False
         self.adapter = adapter
+        self.tandy_format = kw.get('syntax') == 'tandy'
         self.prev = None
 
     # -- projection of the page buffers ---------------------------------------------
@@ -141,6 +145,9 @@ class Driver(object):
         os.remove(path)
         hdr = struct.unpack('<BHHH', data[:7])
         body = data[7:7 + n]
+        tail = data[7 + n:]
+        if self.tandy_format and r[0] == 'ok' and tail[:7] != data[:7]:
+            return self.ev({'op': 'draw', 'rows': self.diff(), 'stmt': st + ': the Tandy-format file does not repeat its header behind the data', 'ok': False, 'kind': 'format'})
         if hdr != (0xfd, seg, off, n) or len(body) != n:
             raise core.MachineryError('unexpected BSAVE file: header %r, %d data bytes for %s' % (hdr, len(body), st))
         return self.ev({'op': 'bsave', 'seg': seg, 'off': off, 'n': n, 'bytes': list(body), 'stmt': st})
@@ -149,7 +156,9 @@ class Driver(object):
         self.fno += 1
         name = 'L%d.BIN' % (self.fno % 7)
         with open(os.path.join(self.s.mount, name), 'wb') as f:
-            f.write(struct.pack('<BHHH', 0xfd, seg, off, len(data)) + bytes(data) + b'\x1a')
+            hdr = struct.pack('<BHHH', 0xfd, seg, off, len(data))
+            # (the Tandy dialect writes and expects the header once more behind the data)
+            f.write(hdr + bytes(data) + (hdr if self.tandy_format else b'') + b'\x1a')
         st = 'BLOAD "%s"' % name
         r = self.s.ex(st)
         return self.ev({'op': 'bload' if r[0] == 'ok' else 'draw', 'seg': seg, 'off': off, 'bytes': list(data), 'rows': self.diff(),
@@ -319,6 +328,10 @@ def run(ctx):
             ctx.count([e['mode'], e['op'], e['seg'], e['off'], e.get('n'), e.get('v'), len(e.get('bytes', ()))])
         if e.get('kind') == 'internal':
             ctx.reject('C34 internal error on %s' % e['stmt'], key={'clause': 'internal'}, data={'stmt': e['stmt']})
+        elif e.get('ok') is False:
+            # PEEK / POKE / BSAVE / BLOAD of the fragment (valid segment, offset 0..65535, value 0..255) must not be refused
+            ctx.reject('C34 statement_failed (%s): %s adapter=%s mode=%s' % (e.get('kind'), e['stmt'][:120], e['adapter'], e['mode']),
+                       key={'clause': 'statement_failed', 'kind': e.get('kind')}, data={'stmt': e['stmt']})
     ctx.cov['operations'] = stats
     for e in [x for x in events if x['op'] in ('peek', 'bsave')][:3] + [x for x in events if x['op'] == 'poke'][:2]:
         ctx.sample({k: (e[k] if k != 'bytes' else e[k][:16]) for k in ('stmt', 'mode', 'val', 'bytes') if k in e})
